@@ -9,7 +9,521 @@ import DswModel.Gen.Graphized
 the visited count, and `IndexError` when the error position lies outside the chunk — for every well-formed
 accessor, every previous vertex the code can index (negative indices wrap, as in `repair_dna`'s unset queue
 entries), and EVERY chunk (foreign characters included), with the default nucleotide alphabet.
+
+Structure: §1 rows reached through a wrapped index; §2 model-side facts (`walkCount`, `Acc.next`);
+§3 computation lemmas for the primitives that had none (`filterM'`, `pyDelItem`, list surgery on the
+characters of a string); §4 the relation `WRel` between the model state and the environment, the three
+inner walks (one generic loop lemma `walk_loop`, three body lemmas each); §5 the continuations, last to first.
 -/
+namespace Dsw.Tie.PathTie
+open Dsw Dsw.Py Dsw.Tie
+
+/-! ## §1 rows reached through a wrapped index -/
+
+/-- a row index the code can use: negative indices wrap once. -/
+def InW (a : Acc) (v : Int) : Prop := -(a.size : Int) ≤ v ∧ v < a.size
+
+def wrapIdx (a : Acc) (v : Int) : Int := if v < 0 then v + a.size else v
+
+theorem wrap_range {a : Acc} {v : Int} (h : InW a v) : 0 ≤ wrapIdx a v ∧ wrapIdx a v < a.size := by
+  unfold wrapIdx; unfold InW at h; split <;> omega
+
+theorem row_wrap {a : Acc} {v : Int} (h : InW a v) : a.row v = a.row (wrapIdx a v) := by
+  unfold wrapIdx
+  by_cases hv : v < 0
+  · have h2 : ¬ (v + (a.size : Int) < 0) := by unfold InW at h; omega
+    simp only [Acc.row, hv, if_true, h2, if_false]
+  · simp only [hv, if_false]
+
+theorem ent_wrap {a : Acc} {v : Int} (h : InW a v) (j : Nat) : a.ent v j = a.ent (wrapIdx a v) j := by
+  unfold Acc.ent; rw [row_wrap h]
+
+theorem live_wrap {a : Acc} {v : Int} (h : InW a v) : a.live v = a.live (wrapIdx a v) := by
+  unfold Acc.live; congr 1; funext j; rw [ent_wrap h]
+
+theorem pyIndex_wrap {a : Acc} {v : Int} (h : InW a v) :
+    pyIndex (accPV a) (.int v) = pyIndex (accPV a) (.int (wrapIdx a v)) := by
+  have hw := wrap_range h
+  rw [pyIndex_accPV, pyIndex_accPV, if_pos (show -(a.size : Int) ≤ v ∧ v < a.size from h),
+    if_pos (show -(a.size : Int) ≤ wrapIdx a v ∧ wrapIdx a v < a.size by omega), row_wrap h]
+
+/-- the idiom `where(accessor[v] >= 0)[0]` for a wrapped index. -/
+theorem used_w {a : Acc} (ha : a.WF) {v : Int} (h : InW a v) :
+    (bnd (bnd (bnd (pyIndex (accPV a) (.int v)) fun t => npCmp pyGe t (.int 0)) fun t => npWhere t)
+        fun t => pyIndex t (.int 0)) = .ok (.arr ((a.live v).map fun (j : Nat) => .int (j : Int))) := by
+  have hw := wrap_range h
+  rw [pyIndex_wrap h, where_row_ge_zero ha hw.1 hw.2, ← live_wrap h]
+
+/-- the idiom `accessor[v][nucleotides.index(c)]` for a wrapped index. -/
+theorem ent_w {a : Acc} (ha : a.WF) {v : Int} (h : InW a v) {c : Char} {j : Nat} (hc : nucIdx c = some j) :
+    (bnd (pyIndex (accPV a) (.int v)) fun r => bnd (pyIndexOf (.str ['A', 'C', 'G', 'T']) (.str [c])) fun k =>
+        pyIndex r k) = .ok (.int (a.ent v j)) := by
+  have hw := wrap_range h
+  rw [pyIndex_wrap h, acc_index_nuc ha hw.1 hw.2 hc, hc, Option.getD_some, ← ent_wrap h]
+
+theorem ent_of_live_w {a : Acc} (ha : a.WF) {v : Int} (h : InW a v) {j : Nat} (hj : j ∈ a.live v) :
+    InW a (a.ent v j) := by
+  have hw := wrap_range h
+  rw [live_wrap h] at hj
+  rw [ent_wrap h]
+  have := ha.ent_of_live hw.1 hw.2 hj
+  exact ⟨by omega, this.2⟩
+
+/-! ## §2 model side -/
+
+theorem walkCount_nil (a : Acc) (v : Int) (n : Nat) : walkCount a v [] n = (true, n) := by
+  simp [walkCount]
+theorem walkCount_cons_some {a : Acc} {v : Int} {c : Char} {t : Int} (h : a.next v c = some t)
+    (s : List Char) (n : Nat) : walkCount a v (c :: s) n = walkCount a t s (n + 1) := by
+  simp [walkCount, h]
+theorem walkCount_cons_none {a : Acc} {v : Int} {c : Char} (h : a.next v c = Option.none)
+    (s : List Char) (n : Nat) : walkCount a v (c :: s) n = (false, n) := by
+  simp [walkCount, h]
+
+/-- the counter is an accumulator. -/
+theorem walkCount_acc (a : Acc) (s : List Char) : ∀ (v : Int) (n : Nat),
+    walkCount a v s n = ((walkCount a v s 0).1, n + (walkCount a v s 0).2) := by
+  induction s with
+  | nil => intro v n; simp [walkCount_nil]
+  | cons c s ih =>
+    intro v n
+    cases h : a.next v c with
+    | none => simp [walkCount_cons_none h]
+    | some t =>
+      rw [walkCount_cons_some h, walkCount_cons_some h, ih t (n + 1), ih t (0 + 1)]
+      simp only [Prod.mk.injEq, true_and]; omega
+
+theorem next_some {a : Acc} {v : Int} {c : Char} {t : Int} (h : a.next v c = some t) :
+    ∃ j, nucIdx c = some j ∧ j ∈ a.live v ∧ t = a.ent v j := by
+  unfold Acc.next at h
+  cases hc : nucIdx c with
+  | none => rw [hc] at h; cases h
+  | some j =>
+    rw [hc] at h
+    by_cases hge : a.ent v j ≥ 0
+    · simp only [hge, if_true, Option.some.injEq] at h
+      exact ⟨j, rfl, (mem_live_iff a v j).2 ⟨nucIdx_lt hc, hge⟩, h.symm⟩
+    · simp only [hge, if_false] at h; cases h
+
+theorem livePos_of_mem {a : Acc} {v : Int} {c : Char} {j : Nat} (hc : nucIdx c = some j) (hj : j ∈ a.live v) :
+    livePos a v c = some ((a.live v).idxOf j) := by
+  have : (a.live v).contains j = true := by simpa using hj
+  simp only [livePos, hc, this, if_true]
+
+theorem next_none {a : Acc} {v : Int} {c : Char} (h : a.next v c = Option.none) :
+    livePos a v c = Option.none := by
+  unfold Acc.next at h
+  unfold livePos
+  cases hc : nucIdx c with
+  | none => rfl
+  | some j =>
+    rw [hc] at h
+    by_cases hge : a.ent v j ≥ 0
+    · simp only [hge, if_true] at h; cases h
+    · have : ¬ j ∈ a.live v := fun hm => hge ((mem_live_iff a v j).1 hm).2
+      have hb : (a.live v).contains j = false := by simpa using this
+      simp only [hb, Bool.false_eq_true, if_false]
+
+/-! ## §3 primitives without lemmas so far -/
+
+/-- `filter(f, items)` over an embedded list, `f` total. -/
+theorem filterM'_map {α} {f : PV → R Bool} {emb : α → PV} {g : α → Bool} {l : List α}
+    (h : ∀ x ∈ l, f (emb x) = .ok (g x)) : filterM' f (l.map emb) = .ok ((l.filter g).map emb) := by
+  induction l with
+  | nil => rfl
+  | cons x xs ih =>
+    have ih' := ih (fun y hy => h y (by simp [hy]))
+    simp only [List.map_cons, filterM', h x (by simp), ih', List.filter_cons]
+    cases g x <;> rfl
+
+/-- `filter(lambda n: n != original, used_nucleotides)`. -/
+theorem filter_ne_orig (l : List Nat) (orig : Char) :
+    filterM' (fun it_n => pyNe it_n (.str [orig])) (l.map fun j => .str [nucChar j]) =
+      .ok ((l.filter fun j => !decide (nucChar j = orig)).map fun j => .str [nucChar j]) :=
+  filterM'_map (fun j _ => by simp only [pyNe_def, eqb_char_str])
+
+@[simp] theorem pyFilter_list (f : PV → R Bool) (l : List PV) :
+    pyFilter f (.list l) = (filterM' f l).map .list := rfl
+
+theorem pyDelItem_list_nat {l : List PV} {i : Nat} (h : i < l.length) :
+    pyDelItem (.list l) (.int i) = .ok (.list (l.eraseIdx i)) := by
+  simp [pyDelItem, normIndex_natCast h]
+
+/-- `l = list(dna); l[i] = x`. -/
+theorem setItem_chars {s : List Char} {i : Nat} (h : i < s.length) (x : Char) :
+    pySetItem (.list (s.map fun c => .str [c])) (.int i) (.str [x]) =
+      .ok (.list ((s.set i x).map fun c => .str [c])) := by
+  rw [pySetItem_list_nat (by simpa using h), List.map_set]
+/-- `l = list(dna); l.insert(i, x)`. -/
+theorem insert_chars (s : List Char) (i : Nat) (x : Char) :
+    pyInsert (.list (s.map fun c => .str [c])) (.int i) (.str [x]) =
+      .ok (.list ((s.take i ++ [x] ++ s.drop i).map fun c => .str [c])) := by
+  rw [pyInsert_list_nat]; simp
+/-- `l = list(dna); del l[i]`. -/
+theorem delItem_chars {s : List Char} {i : Nat} (h : i < s.length) :
+    pyDelItem (.list (s.map fun c => .str [c])) (.int i) =
+      .ok (.list ((s.take i ++ s.drop (i + 1)).map fun c => .str [c])) := by
+  rw [pyDelItem_list_nat (by simpa using h), List.eraseIdx_eq_take_drop_succ]; simp
+/-- `''.join(l)` for a list of one-letter strings. -/
+theorem join_chars (s : List Char) : pyJoin (.str []) (.list (s.map fun c => .str [c])) = .ok (.str s) := by
+  have := pyJoin_empty_chars (fun c : Char => c) s
+  simpa using this
+
+/-! ## §4 the environment relation and the inner walks -/
+
+/-- the fixed data of one call (`orig` is `dna[occ]`). -/
+structure Ctx where
+  a : Acc
+  chunk : List Char
+  prev : Int
+  occ : Nat
+  hasIndel : Bool
+  orig : Char
+
+abbrev Env := Gen.path_matching.Env
+
+/-- the environment during the loops: the arguments, `original`, `used_indices`, the records so far, the
+three candidate nucleotides (whatever they hold), the walking vertex, `reliable`, `visited_count`. -/
+def WRel (C : Ctx) (rn an dn vi : PV) (infos : List RepairInfo) (rl : PV) (n : Nat) (e : Env) : Prop :=
+  e.dna_sequence = .str C.chunk ∧ e.accessor = accPV C.a ∧ e.previous_index = .int C.prev ∧
+    e.occur_location = .int (C.occ : Int) ∧ e.has_indel = .bool C.hasIndel ∧
+    e.nucleotides = .str ['A', 'C', 'G', 'T'] ∧ e.original = .str [C.orig] ∧
+    e.used_indices = .arr ((C.a.live C.prev).map fun (j : Nat) => .int (j : Int)) ∧
+    e.repair_info = .list (infos.map infoPV) ∧ e.r_nucleotide = rn ∧ e.a_nucleotide = an ∧
+    e.d_nucleotide = dn ∧ e.vertex_index = vi ∧ e.reliable = rl ∧ e.visited_count = .int (n : Int)
+
+/-- closes a `WRel` goal about an environment literal: every field is `rfl` or a hypothesis. -/
+macro "w_rel" : tactic =>
+  `(tactic| (refine ⟨?_, ?_, ?_, ?_, ?_, ?_, ?_, ?_, ?_, ?_, ?_, ?_, ?_, ?_, ?_⟩ <;> first | rfl | assumption))
+
+theorem seq_norm_exists {ε : Type} {m : R (Flow ε)} {k : ε → R (Flow ε)} {Q Q' : ε → Prop}
+    (hm : ∃ e1, m = .ok (.norm e1) ∧ Q e1) (hk : ∀ e1, Q e1 → ∃ e2, k e1 = .ok (.norm e2) ∧ Q' e2) :
+    ∃ e2, seq m k = .ok (.norm e2) ∧ Q' e2 := by
+  obtain ⟨e1, rfl, hq⟩ := hm
+  exact hk e1 hq
+
+/-- the items of an inner walk: the letters of a string, possibly with their positions. -/
+def embList (emb : Nat → Char → PV) : Nat → List Char → List PV
+  | _, [] => []
+  | i, c :: s => emb i c :: embList emb (i + 1) s
+
+theorem enum_eq_embList (s : List Char) (i : Nat) :
+    enumFrom i (s.map fun c => .str [c]) = embList (fun i c => .tup [.int (i : Int), .str [c]]) i s := by
+  induction s generalizing i with
+  | nil => rfl
+  | cons c s ih => simp only [List.map_cons, enumFrom_cons, embList, ih]
+theorem map_eq_embList (s : List Char) (i : Nat) :
+    (s.map fun c => PV.str [c]) = embList (fun _ c => .str [c]) i s := by
+  induction s generalizing i with
+  | nil => rfl
+  | cons c s ih => simp only [List.map_cons, embList, ← ih]
+
+/-- **the inner walk**: a loop whose body follows the arc labelled by the item (counting it) or breaks with
+`reliable = False` computes `walkCount`. -/
+theorem walk_loop {C : Ctx} (ha : C.a.WF) {body : PV → Env → R (Flow Env)} {emb : Nat → Char → PV}
+    {rn an dn : PV} {infos : List RepairInfo}
+    (hok : ∀ (e : Env) (n : Nat) (v : Int), WRel C rn an dn (.int v) infos (.bool true) n e → InW C.a v →
+      ∀ (i : Nat) (c : Char) (t : Int), C.a.next v c = some t →
+        ∃ e', body (emb i c) e = .ok (.norm e') ∧ WRel C rn an dn (.int t) infos (.bool true) (n + 1) e')
+    (hbrk : ∀ (e : Env) (n : Nat) (v : Int), WRel C rn an dn (.int v) infos (.bool true) n e → InW C.a v →
+      ∀ (i : Nat) (c : Char), C.a.next v c = Option.none →
+        ∃ e', body (emb i c) e = .ok (.brk e') ∧ WRel C rn an dn (.int v) infos (.bool false) n e') :
+    ∀ (s : List Char) (i : Nat) (v : Int) (n : Nat) (e : Env), WRel C rn an dn (.int v) infos (.bool true) n e →
+      InW C.a v →
+      ∃ e', forLoop body (embList emb i s) e = .ok (.norm e') ∧
+        ∃ vi, WRel C rn an dn vi infos (.bool (walkCount C.a v s 0).1) (n + (walkCount C.a v s 0).2) e' := by
+  intro s
+  induction s with
+  | nil =>
+    intro i v n e hr _
+    exact ⟨e, rfl, .int v, by rw [walkCount_nil]; exact hr⟩
+  | cons c s ih =>
+    intro i v n e hr hv
+    cases hn : C.a.next v c with
+    | none =>
+      obtain ⟨e1, hb, hr1⟩ := hbrk e n v hr hv i c hn
+      exact ⟨e1, forLoop_cons_brk hb _, .int v, by rw [walkCount_cons_none hn]; exact hr1⟩
+    | some t =>
+      obtain ⟨e1, hb, hr1⟩ := hok e n v hr hv i c t hn
+      obtain ⟨j, _, hj, rfl⟩ := next_some hn
+      obtain ⟨e2, hl, vi, hr2⟩ := ih (i + 1) _ (n + 1) e1 hr1 (ent_of_live_w ha hv hj)
+      refine ⟨e2, ?_, vi, ?_⟩
+      · show forLoop body (emb i c :: embList emb (i + 1) s) e = _
+        rw [forLoop_cons_norm hb, hl]
+      · rw [walkCount_cons_some hn, walkCount_acc]
+        have : n + (0 + 1 + (walkCount C.a (C.a.ent v j) s 0).2) = n + 1 + (walkCount C.a (C.a.ent v j) s 0).2 := by
+          omega
+        simp only [this]
+        exact hr2
+
+/-! ### the three bodies -/
+
+theorem for2_ok (fuel : Nat) {C : Ctx} (ha : C.a.WF) {rn an dn : PV} {infos : List RepairInfo}
+    (e : Env) (n : Nat) (v : Int) (hr : WRel C rn an dn (.int v) infos (.bool true) n e) (hv : InW C.a v)
+    (i : Nat) (c : Char) (t : Int) (hn : C.a.next v c = some t) :
+    ∃ e', Gen.path_matching.for2_body fuel (.tup [.int (i : Int), .str [c]]) e = .ok (.norm e') ∧
+      WRel C rn an dn (.int t) infos (.bool true) (n + 1) e' := by
+  obtain ⟨j, hc, hj, rfl⟩ := next_some hn
+  obtain ⟨h1, hacc, h3, h4, h5, hnuc, h7, h8, h9, h10, h11, h12, hvi, hrel, hcnt⟩ := hr
+  simp only [Gen.path_matching.for2_body, pyUnpack_two_tup, bnd_ok, getD_cons_zero', getD_cons_one', hacc, hvi,
+    hnuc, used_w ha hv, pyMap_nucs (fun j hj => live_lt_four C.a v hj), pyIn_live, livePos_of_mem hc hj,
+    Option.isSome_some, if_true, ent_w ha hv hc, hcnt, npAdd_nat_one]
+  refine ⟨_, rfl, ?_⟩
+  w_rel
+
+theorem for2_brk (fuel : Nat) {C : Ctx} (ha : C.a.WF) {rn an dn : PV} {infos : List RepairInfo}
+    (e : Env) (n : Nat) (v : Int) (hr : WRel C rn an dn (.int v) infos (.bool true) n e) (hv : InW C.a v)
+    (i : Nat) (c : Char) (hn : C.a.next v c = Option.none) :
+    ∃ e', Gen.path_matching.for2_body fuel (.tup [.int (i : Int), .str [c]]) e = .ok (.brk e') ∧
+      WRel C rn an dn (.int v) infos (.bool false) n e' := by
+  obtain ⟨h1, hacc, h3, h4, h5, hnuc, h7, h8, h9, h10, h11, h12, hvi, hrel, hcnt⟩ := hr
+  simp only [Gen.path_matching.for2_body, pyUnpack_two_tup, bnd_ok, getD_cons_zero', getD_cons_one', hacc, hvi,
+    hnuc, used_w ha hv, pyMap_nucs (fun j hj => live_lt_four C.a v hj), pyIn_live, next_none hn,
+    Option.isSome_none, Bool.false_eq_true, if_false]
+  refine ⟨_, rfl, ?_⟩
+  w_rel
+
+theorem for5_ok (fuel : Nat) {C : Ctx} (ha : C.a.WF) {rn an dn : PV} {infos : List RepairInfo}
+    (e : Env) (n : Nat) (v : Int) (hr : WRel C rn an dn (.int v) infos (.bool true) n e) (hv : InW C.a v)
+    (i : Nat) (c : Char) (t : Int) (hn : C.a.next v c = some t) :
+    ∃ e', Gen.path_matching.for5_body fuel (.tup [.int (i : Int), .str [c]]) e = .ok (.norm e') ∧
+      WRel C rn an dn (.int t) infos (.bool true) (n + 1) e' := by
+  obtain ⟨j, hc, hj, rfl⟩ := next_some hn
+  obtain ⟨h1, hacc, h3, h4, h5, hnuc, h7, h8, h9, h10, h11, h12, hvi, hrel, hcnt⟩ := hr
+  simp only [Gen.path_matching.for5_body, pyUnpack_two_tup, bnd_ok, getD_cons_zero', getD_cons_one', hacc, hvi,
+    hnuc, used_w ha hv, pyMap_nucs (fun j hj => live_lt_four C.a v hj), pyIn_live, livePos_of_mem hc hj,
+    Option.isSome_some, if_true, ent_w ha hv hc, hcnt, npAdd_nat_one]
+  refine ⟨_, rfl, ?_⟩
+  w_rel
+
+theorem for5_brk (fuel : Nat) {C : Ctx} (ha : C.a.WF) {rn an dn : PV} {infos : List RepairInfo}
+    (e : Env) (n : Nat) (v : Int) (hr : WRel C rn an dn (.int v) infos (.bool true) n e) (hv : InW C.a v)
+    (i : Nat) (c : Char) (hn : C.a.next v c = Option.none) :
+    ∃ e', Gen.path_matching.for5_body fuel (.tup [.int (i : Int), .str [c]]) e = .ok (.brk e') ∧
+      WRel C rn an dn (.int v) infos (.bool false) n e' := by
+  obtain ⟨h1, hacc, h3, h4, h5, hnuc, h7, h8, h9, h10, h11, h12, hvi, hrel, hcnt⟩ := hr
+  simp only [Gen.path_matching.for5_body, pyUnpack_two_tup, bnd_ok, getD_cons_zero', getD_cons_one', hacc, hvi,
+    hnuc, used_w ha hv, pyMap_nucs (fun j hj => live_lt_four C.a v hj), pyIn_live, next_none hn,
+    Option.isSome_none, Bool.false_eq_true, if_false]
+  refine ⟨_, rfl, ?_⟩
+  w_rel
+
+theorem for4_ok (fuel : Nat) {C : Ctx} (ha : C.a.WF) {rn an dn : PV} {infos : List RepairInfo}
+    (e : Env) (n : Nat) (v : Int) (hr : WRel C rn an dn (.int v) infos (.bool true) n e) (hv : InW C.a v)
+    (_i : Nat) (c : Char) (t : Int) (hn : C.a.next v c = some t) :
+    ∃ e', Gen.path_matching.for4_body fuel (.str [c]) e = .ok (.norm e') ∧
+      WRel C rn an dn (.int t) infos (.bool true) (n + 1) e' := by
+  obtain ⟨j, hc, hj, rfl⟩ := next_some hn
+  obtain ⟨h1, hacc, h3, h4, h5, hnuc, h7, h8, h9, h10, h11, h12, hvi, hrel, hcnt⟩ := hr
+  simp only [Gen.path_matching.for4_body, bnd_ok, hacc, hvi,
+    hnuc, used_w ha hv, pyMap_nucs (fun j hj => live_lt_four C.a v hj), pyIn_live, livePos_of_mem hc hj,
+    Option.isSome_some, if_true, ent_w ha hv hc, hcnt, npAdd_nat_one]
+  refine ⟨_, rfl, ?_⟩
+  w_rel
+
+theorem for4_brk (fuel : Nat) {C : Ctx} (ha : C.a.WF) {rn an dn : PV} {infos : List RepairInfo}
+    (e : Env) (n : Nat) (v : Int) (hr : WRel C rn an dn (.int v) infos (.bool true) n e) (hv : InW C.a v)
+    (_i : Nat) (c : Char) (hn : C.a.next v c = Option.none) :
+    ∃ e', Gen.path_matching.for4_body fuel (.str [c]) e = .ok (.brk e') ∧
+      WRel C rn an dn (.int v) infos (.bool false) n e' := by
+  obtain ⟨h1, hacc, h3, h4, h5, hnuc, h7, h8, h9, h10, h11, h12, hvi, hrel, hcnt⟩ := hr
+  simp only [Gen.path_matching.for4_body, bnd_ok, hacc, hvi,
+    hnuc, used_w ha hv, pyMap_nucs (fun j hj => live_lt_four C.a v hj), pyIn_live, next_none hn,
+    Option.isSome_none, Bool.false_eq_true, if_false]
+  refine ⟨_, rfl, ?_⟩
+  w_rel
+
+/-! ## §5 the continuations -/
+
+theorem info_append (infos : List RepairInfo) (k : EditKind) (occ : Nat) (x : Char) (frag : List Char) :
+    PV.list (infos.map infoPV ++ [.tup [.tup [.str [kindChar k], .int (occ : Int), .str [x]], .str frag]]) =
+      .list ((infos ++ [(⟨k, occ, x, frag⟩ : RepairInfo)]).map infoPV) := by
+  simp [infoPV]
+
+/-- after the substitution walk: record the candidate when the walk was reliable. -/
+theorem k1_spec (fuel : Nat) {C : Ctx} (hocc : C.occ < C.chunk.length) {x : Char} {an dn vi : PV}
+    {infos : List RepairInfo} {rel : Bool} {n : Nat} (e : Env)
+    (hr : WRel C (.str [x]) an dn vi infos (.bool rel) n e) :
+    ∃ e', Gen.path_matching.k1 fuel e = .ok (.norm e') ∧
+      WRel C (.str [x]) an dn vi
+        (if rel then infos ++ [⟨.S, C.occ, x, C.chunk.set C.occ x⟩] else infos) (.bool rel) n e' := by
+  obtain ⟨hdna, hacc, h3, hoc, h5, hnuc, h7, h8, hri, hrn, h11, h12, hvi, hrel, hcnt⟩ := hr
+  cases rel with
+  | false =>
+    simp only [Gen.path_matching.k1, hrel, truthy_bool, bnd_ok, Bool.false_eq_true, if_false]
+    refine ⟨e, rfl, ?_⟩
+    w_rel
+  | true =>
+    simp only [Gen.path_matching.k1, hrel, truthy_bool, bnd_ok, if_true, hdna, pyList_str, hoc, hrn,
+      setItem_chars hocc, join_chars, hri, pyAppend_list]
+    refine ⟨_, rfl, ?_⟩
+    have := info_append infos .S C.occ x (C.chunk.set C.occ x)
+    w_rel
+
+/-- after the insertion walk. -/
+theorem k2_spec (fuel : Nat) {C : Ctx} {x : Char} {rn dn vi : PV}
+    {infos : List RepairInfo} {rel : Bool} {n : Nat} (e : Env)
+    (hr : WRel C rn (.str [x]) dn vi infos (.bool rel) n e) :
+    ∃ e', Gen.path_matching.k2 fuel e = .ok (.norm e') ∧
+      WRel C rn (.str [x]) dn vi
+        (if rel then infos ++ [⟨.I, C.occ, x, C.chunk.take C.occ ++ [x] ++ C.chunk.drop C.occ⟩] else infos)
+        (.bool rel) n e' := by
+  obtain ⟨hdna, hacc, h3, hoc, h5, hnuc, h7, h8, hri, h10, han, h12, hvi, hrel, hcnt⟩ := hr
+  cases rel with
+  | false =>
+    simp only [Gen.path_matching.k2, hrel, truthy_bool, bnd_ok, Bool.false_eq_true, if_false]
+    refine ⟨e, rfl, ?_⟩
+    w_rel
+  | true =>
+    simp only [Gen.path_matching.k2, hrel, truthy_bool, bnd_ok, if_true, hdna, pyList_str, hoc, han,
+      insert_chars, join_chars, hri, pyAppend_list]
+    refine ⟨_, rfl, ?_⟩
+    have := info_append infos .I C.occ x (C.chunk.take C.occ ++ [x] ++ C.chunk.drop C.occ)
+    w_rel
+
+/-- after the deletion walk. -/
+theorem k3_spec (fuel : Nat) {C : Ctx} (hocc : C.occ < C.chunk.length) {rn an vi : PV}
+    {infos : List RepairInfo} {rel : Bool} {n : Nat} (e : Env)
+    (hr : WRel C rn an (.str [C.orig]) vi infos (.bool rel) n e) :
+    ∃ e', Gen.path_matching.k3 fuel e = .ok (.norm e') ∧
+      WRel C rn an (.str [C.orig]) vi
+        (if rel then infos ++ [⟨.D, C.occ, C.orig, C.chunk.take C.occ ++ C.chunk.drop (C.occ + 1)⟩] else infos)
+        (.bool rel) n e' := by
+  obtain ⟨hdna, hacc, h3, hoc, h5, hnuc, h7, h8, hri, h10, h11, hdn, hvi, hrel, hcnt⟩ := hr
+  cases rel with
+  | false =>
+    simp only [Gen.path_matching.k3, hrel, truthy_bool, bnd_ok, Bool.false_eq_true, if_false]
+    refine ⟨e, rfl, ?_⟩
+    w_rel
+  | true =>
+    simp only [Gen.path_matching.k3, hrel, truthy_bool, bnd_ok, if_true, hdna, pyList_str, hoc, hdn,
+      delItem_chars hocc, join_chars, hri, pyAppend_list]
+    refine ⟨_, rfl, ?_⟩
+    have := info_append infos .D C.occ C.orig (C.chunk.take C.occ ++ C.chunk.drop (C.occ + 1))
+    w_rel
+
+/-- the state of the outer loops: the records and the visited count. -/
+def ORel (C : Ctx) (st : List RepairInfo × Nat) (e : Env) : Prop :=
+  ∃ rn an dn vi rl, WRel C rn an dn vi st.1 rl st.2 e
+
+theorem ORel.mk {C : Ctx} {rn an dn vi : PV} {infos : List RepairInfo} {rl : PV} {n : Nat} {e : Env}
+    (h : WRel C rn an dn vi infos rl n e) : ORel C (infos, n) e := ⟨rn, an, dn, vi, rl, h⟩
+
+/-- one substitution candidate. -/
+def subStep (C : Ctx) (acc : List RepairInfo × Nat) (x : Char) : List RepairInfo × Nat :=
+  let w := walkCount C.a (C.a.ent C.prev ((nucIdx x).getD 0)) (C.chunk.drop (C.occ + 1)) 0
+  (if w.1 then acc.1 ++ [⟨.S, C.occ, x, C.chunk.set C.occ x⟩] else acc.1, acc.2 + w.2)
+/-- one insertion candidate. -/
+def insStep (C : Ctx) (acc : List RepairInfo × Nat) (x : Char) : List RepairInfo × Nat :=
+  let w := walkCount C.a (C.a.ent C.prev ((nucIdx x).getD 0)) (C.chunk.drop C.occ) 0
+  (if w.1 then acc.1 ++ [⟨.I, C.occ, x, C.chunk.take C.occ ++ [x] ++ C.chunk.drop C.occ⟩] else acc.1, acc.2 + w.2)
+/-- the deletion candidate. -/
+def delStep (C : Ctx) (acc : List RepairInfo × Nat) : List RepairInfo × Nat :=
+  let w := walkCount C.a C.prev (C.chunk.drop (C.occ + 1)) 0
+  (if w.1 then acc.1 ++ [⟨.D, C.occ, C.orig, C.chunk.take C.occ ++ C.chunk.drop (C.occ + 1)⟩] else acc.1, acc.2 + w.2)
+
+theorem for1_spec (fuel : Nat) {C : Ctx} (ha : C.a.WF) (hp : InW C.a C.prev) (hocc : C.occ < C.chunk.length)
+    {x : Char} {j : Nat} (hc : nucIdx x = some j) (hj : j ∈ C.a.live C.prev) (st : List RepairInfo × Nat)
+    (e : Env) (hr : ORel C st e) :
+    ∃ e', Gen.path_matching.for1_body fuel (.str [x]) e = .ok (.norm e') ∧ ORel C (subStep C st x) e' := by
+  obtain ⟨rn, an, dn, vi, rel, hr⟩ := hr
+  obtain ⟨hdna, hacc, hprev, hoc, h5, hnuc, h7, h8, hri, h10, h11, h12, hvi, hrel, hcnt⟩ := hr
+  simp only [Gen.path_matching.for1_body, hacc, hprev, hnuc, ent_w ha hp hc, bnd_ok, hoc, npAdd_nat_one, hdna,
+    pySliceV_str_from, pyEnumerate_str, pyIter_list, enum_eq_embList]
+  refine seq_norm_exists (Q := fun e1 => ∃ vi, WRel C (.str [x]) an dn vi st.1
+      (.bool (walkCount C.a (C.a.ent C.prev j) (C.chunk.drop (C.occ + 1)) 0).1)
+      (st.2 + (walkCount C.a (C.a.ent C.prev j) (C.chunk.drop (C.occ + 1)) 0).2) e1) ?_ ?_
+  · exact walk_loop ha (for2_ok fuel ha) (for2_brk fuel ha) _ 0 _ st.2 _ (by w_rel) (ent_of_live_w ha hp hj)
+  · rintro e1 ⟨vi1, hr1⟩
+    obtain ⟨e2, hk, hr2⟩ := k1_spec fuel hocc e1 hr1
+    refine ⟨e2, hk, ?_⟩
+    simp only [subStep, hc, Option.getD_some]
+    exact ORel.mk hr2
+
+theorem for3_spec (fuel : Nat) {C : Ctx} (ha : C.a.WF) (hp : InW C.a C.prev)
+    {x : Char} {j : Nat} (hc : nucIdx x = some j) (hj : j ∈ C.a.live C.prev) (st : List RepairInfo × Nat)
+    (e : Env) (hr : ORel C st e) :
+    ∃ e', Gen.path_matching.for3_body fuel (.str [x]) e = .ok (.norm e') ∧ ORel C (insStep C st x) e' := by
+  obtain ⟨rn, an, dn, vi, rel, hr⟩ := hr
+  obtain ⟨hdna, hacc, hprev, hoc, h5, hnuc, h7, h8, hri, h10, h11, h12, hvi, hrel, hcnt⟩ := hr
+  simp only [Gen.path_matching.for3_body, hacc, hprev, hnuc, ent_w ha hp hc, bnd_ok, hoc, hdna,
+    pySliceV_str_from, pyIter_str, map_eq_embList (C.chunk.drop C.occ) 0]
+  refine seq_norm_exists (Q := fun e1 => ∃ vi, WRel C rn (.str [x]) dn vi st.1
+      (.bool (walkCount C.a (C.a.ent C.prev j) (C.chunk.drop C.occ) 0).1)
+      (st.2 + (walkCount C.a (C.a.ent C.prev j) (C.chunk.drop C.occ) 0).2) e1) ?_ ?_
+  · exact walk_loop ha (for4_ok fuel ha) (for4_brk fuel ha) _ 0 _ st.2 _ (by w_rel) (ent_of_live_w ha hp hj)
+  · rintro e1 ⟨vi1, hr1⟩
+    obtain ⟨e2, hk, hr2⟩ := k2_spec fuel e1 hr1
+    refine ⟨e2, hk, ?_⟩
+    simp only [insStep, hc, Option.getD_some]
+    exact ORel.mk hr2
+
+theorem k4_spec (fuel : Nat) {C : Ctx} (ha : C.a.WF) (hp : InW C.a C.prev) (hocc : C.occ < C.chunk.length)
+    (st : List RepairInfo × Nat) (e : Env) (hr : ORel C st e) :
+    ∃ e', Gen.path_matching.k4 fuel e = .ok (.norm e') ∧ ORel C (delStep C st) e' := by
+  obtain ⟨rn, an, dn, vi, rel, hr⟩ := hr
+  obtain ⟨hdna, hacc, hprev, hoc, h5, hnuc, h7, h8, hri, h10, h11, h12, hvi, hrel, hcnt⟩ := hr
+  simp only [Gen.path_matching.k4, bnd_ok, hoc, npAdd_nat_one, hdna,
+    pySliceV_str_from, pyEnumerate_str, pyIter_list, enum_eq_embList]
+  refine seq_norm_exists (Q := fun e1 => ∃ vi, WRel C rn an (.str [C.orig]) vi st.1
+      (.bool (walkCount C.a C.prev (C.chunk.drop (C.occ + 1)) 0).1)
+      (st.2 + (walkCount C.a C.prev (C.chunk.drop (C.occ + 1)) 0).2) e1) ?_ ?_
+  · exact walk_loop ha (for5_ok fuel ha) (for5_brk fuel ha) _ 0 _ st.2 _ (by w_rel) hp
+  · rintro e1 ⟨vi1, hr1⟩
+    obtain ⟨e2, hk, hr2⟩ := k3_spec fuel hocc e1 hr1
+    exact ⟨e2, hk, ORel.mk hr2⟩
+
+theorem k5_spec (fuel : Nat) {C : Ctx} (st : List RepairInfo × Nat) (e : Env) (hr : ORel C st e) :
+    Gen.path_matching.k5 fuel e = .ok (.ret (pmResultPV st)) := by
+  obtain ⟨rn, an, dn, vi, rel, hr⟩ := hr
+  obtain ⟨hdna, hacc, hprev, hoc, h5, hnuc, h7, h8, hri, h10, h11, h12, hvi, hrel, hcnt⟩ := hr
+  simp only [Gen.path_matching.k5, hri, hcnt]
+  rfl
+
+theorem nucIdx_nucChar_live {a : Acc} {v : Int} {j : Nat} (hj : j ∈ a.live v) : nucIdx (nucChar j) = some j :=
+  nucIdx_nucChar (live_lt_four a v hj)
+
+theorem k6_spec (fuel : Nat) {C : Ctx} (ha : C.a.WF) (hp : InW C.a C.prev) (hocc : C.occ < C.chunk.length)
+    (st : List RepairInfo × Nat) (e : Env) (hr : ORel C st e) :
+    Gen.path_matching.k6 fuel e = .ok (.ret (pmResultPV
+      (if !C.hasIndel then st
+       else delStep C ((C.a.live C.prev).foldl (fun st j => insStep C st (nucChar j)) st)))) := by
+  have hr' := hr
+  obtain ⟨rn, an, dn, vi, rel, hr⟩ := hr
+  obtain ⟨hdna, hacc, hprev, hoc, h5, hnuc, h7, h8, hri, h10, h11, h12, hvi, hrel, hcnt⟩ := hr
+  cases hI : C.hasIndel with
+  | false =>
+    simp only [Gen.path_matching.k6, h5, hI, truthy_bool, bnd_ok, Bool.false_eq_true, if_false, seq_norm,
+      Bool.not_false, if_true]
+    exact k5_spec fuel st e hr'
+  | true =>
+    simp only [Gen.path_matching.k6, h5, hI, truthy_bool, bnd_ok, if_true, h8, hnuc,
+      pyMap_nucs (fun j hj => live_lt_four C.a C.prev hj), pyIter_list, Bool.not_true, Bool.false_eq_true, if_false]
+    apply seq_eq_of_norm (ORel C (delStep C ((C.a.live C.prev).foldl (fun st j => insStep C st (nucChar j)) st)))
+    · apply seq_norm_exists (Q := ORel C ((C.a.live C.prev).foldl (fun st j => insStep C st (nucChar j)) st))
+      · exact forLoop_rel_map (ORel C) (fun st j => insStep C st (nucChar j)) (fun j => PV.str [nucChar j])
+          (fun j hj st e hr => for3_spec fuel ha hp (nucIdx_nucChar_live hj) hj st e hr) hr'
+      · intro e1 h1
+        exact k4_spec fuel ha hp hocc _ e1 h1
+    · intro e1 h1
+      exact k5_spec fuel _ e1 h1
+
+/-- the model, with the nucleotide loops running over the live columns. -/
+def pmModel (C : Ctx) : List RepairInfo × Nat :=
+  if !C.hasIndel then
+    ((C.a.live C.prev).filter fun j => !decide (nucChar j = C.orig)).foldl (fun st j => subStep C st (nucChar j)) ([], 0)
+  else
+    delStep C ((C.a.live C.prev).foldl (fun st j => insStep C st (nucChar j))
+      (((C.a.live C.prev).filter fun j => !decide (nucChar j = C.orig)).foldl
+        (fun st j => subStep C st (nucChar j)) ([], 0)))
+
+theorem pathMatching_eq (C : Ctx) (h : C.chunk[C.occ]? = some C.orig) :
+    pathMatching C.a C.chunk C.prev C.occ C.hasIndel = .ok (pmModel C) := by
+  simp only [pathMatching, h, pmModel, List.filter_map, List.foldl_map]
+  cases C.hasIndel <;> simp [subStep, insStep, delStep, Function.comp_def]
+
+end Dsw.Tie.PathTie
+
 namespace Dsw.Tie
 open Dsw Dsw.Py
 
@@ -17,6 +531,33 @@ theorem tie_path_matching (a : Acc) (chunk : List Char) (prev : Int) (occ : Nat)
     (ha : a.WF) (hp : -(a.size : Int) ≤ prev ∧ prev < a.size) :
     Gen.path_matching fuel (cstr chunk) (accPV a) (.int prev) (.int (occ : Int)) (.bool hasIndel) .none =
       (pathMatching a chunk prev occ hasIndel).map pmResultPV := by
-  sorry
+  by_cases hocc : occ < chunk.length
+  · let C : PathTie.Ctx := ⟨a, chunk, prev, occ, hasIndel, chunk[occ]⟩
+    have hget : C.chunk[C.occ]? = some C.orig := List.getElem?_eq_getElem hocc
+    have hpm := PathTie.pathMatching_eq C hget
+    have hpw : PathTie.InW C.a C.prev := hp
+    rw [show pathMatching a chunk prev occ hasIndel = pathMatching C.a C.chunk C.prev C.occ C.hasIndel from rfl,
+      hpm, R_map_ok]
+    simp only [Gen.path_matching, Gen.path_matching.body, pyIsNone_none, bnd_ok, if_true, seq_norm,
+      Gen.path_matching.k7, cstr, pyIndex_str_nat hocc, PathTie.used_w ha hp,
+      pyMap_nucs (fun j hj => live_lt_four a prev hj), PathTie.pyFilter_list,
+      PathTie.filter_ne_orig,
+      R_map_ok, pyList_list, pyIter_list]
+    apply callResult_seq_of_norm (PathTie.ORel C
+      (((C.a.live C.prev).filter fun j => !decide (nucChar j = C.orig)).foldl
+        (fun st j => PathTie.subStep C st (nucChar j)) ([], 0)))
+    · refine forLoop_rel_map (PathTie.ORel C) (fun st j => PathTie.subStep C st (nucChar j))
+        (fun j => PV.str [nucChar j])
+        (fun j hj st e hr => PathTie.for1_spec fuel ha hpw hocc
+          (PathTie.nucIdx_nucChar_live (List.mem_filter.mp hj).1) (List.mem_filter.mp hj).1 st e hr)
+        (PathTie.ORel.mk (rn := .unbound) (an := .unbound) (dn := .unbound) (vi := .unbound) (rl := .unbound) ?_)
+      refine ⟨?_, ?_, ?_, ?_, ?_, ?_, ?_, ?_, ?_, ?_, ?_, ?_, ?_, ?_, ?_⟩ <;> rfl
+    · intro e1 h1
+      rw [PathTie.k6_spec fuel ha hpw hocc _ e1 h1]
+      simp only [callResult_ret, PathTie.pmModel]
+  · have hnone : chunk[occ]? = Option.none := List.getElem?_eq_none (by omega)
+    have hge : (chunk.length : Int) ≤ (occ : Int) := by omega
+    simp only [pathMatching, hnone, R_map_error, Gen.path_matching, Gen.path_matching.body, pyIsNone_none, bnd_ok,
+      if_true, seq_norm, Gen.path_matching.k7, cstr, pyIndex_str_of_ge hge, bnd_error, callResult_error]
 
 end Dsw.Tie
